@@ -625,9 +625,19 @@ func resolveAllProtocolChanges(newEnv, oldEnv *Environment, context *EvolutionCo
 				continue
 			}
 
-			if protocolChange := compareProtocolDefinitions(newProt, oldProt, context); protocolChange != nil {
+			protocolChange := compareProtocolDefinitions(newProt, oldProt, context)
+			previousSchema := GetProtocolSchemaString(oldProt, oldEnv.SymbolTable)
+			if protocolChange == nil && previousSchema != GetProtocolSchemaString(newProt, newEnv.SymbolTable) {
+				// Same encoding but a different schema text (e.g. an alias was added or removed): no step needs
+				// a conversion, but readers and writers still have to know the previous version's schema
+				protocolChange = &ProtocolChange{
+					DefinitionPair: DefinitionPair{oldProt, newProt},
+					StepChanges:    make([]TypeChange, len(newProt.Sequence)),
+				}
+			}
+			if protocolChange != nil {
 				// Annotate the ProtocolChange with the Old ProtocolDefinition schema string
-				protocolChange.PreviousSchema = GetProtocolSchemaString(oldProt, oldEnv.SymbolTable)
+				protocolChange.PreviousSchema = previousSchema
 				allProtocolChanges[oldProt.GetQualifiedName()] = protocolChange
 			}
 		}
